@@ -207,9 +207,16 @@ fn strategy_one<T: SElem + num_traits::ToPrimitive, B: BinsBuildingStrategy<Elem
     let h = guarded(|| {
         let m = data.clone().insert_axis(Axis(1));
         let grid = GridBuilder::<B>::from_array(&m).map(|g| g.build());
-        grid.map(|g| m.histogram(g).counts().sum())
+        grid.map(|g| { let hist = m.histogram(g); (hist.counts().sum(), hist.counts().iter().map(|&c| c as i64).collect::<Vec<i64>>()) })
     });
-    o.insert("hist_total".into(), json!(match h { Ok(Ok(t)) => t as i64, _ => -1 }));
+    o.insert("hist_total".into(), json!(match &h { Ok(Ok((t, _))) => *t as i64, _ => -1 }));
+    // ... and puts each of them into the bin that contains it: the counts per bin next to the data in doubled-rank space
+    if vals.len() <= 400 {
+        if let Ok(Ok((_, counts))) = &h {
+            o.insert("hcounts".into(), json!(counts));
+            o.insert("dr".into(), json!(vals.iter().map(|x| rank2_of(&rm, x)).collect::<Vec<_>>()));
+        }
+    }
     Value::Object(o)
 }
 
